@@ -13,6 +13,8 @@ use crate::l2_core::*;
 use crate::l2_shift::*;
 use crate::l3_div_ct::*;
 use crate::l3_div_vt::*;
+use crate::l3_mul::*;
+use crate::l2_subtle::*;
 verus! {
 
 //@@ subst \b(Self|Uint)::(ZERO|ONE|MAX|BITS|LOG2_BITS)\b(?!\() => \1::\2()
@@ -182,6 +184,7 @@ proof fn lemma_nstep_stay(n: int, s: int, x: int)
     ensures s <= nstep(n, x) <= s + 1, x == s + 1 ==> nstep(n, x) == s
 {
     if s == 0 {
+        assert((s + 1) * (s + 1) == 1) by (nonlinear_arith) requires s == 0;
         assert(n == 0);
         if x == 1 { assert(0int / 1 == 0); }
     } else if x == s {
@@ -453,7 +456,7 @@ pub const fn sqrt_vartime(&self) -> (ret__: Self)
     let ghost n = self.v();
     proof { lemma_val_bound(self.limbs@, LIMBS as nat); }
     assert forall|y: u32| #[trigger] (y >> 1) == y / 2 by { assert(y >> 1 == y / 2) by (bit_vector); }
-    assert forall|b: u32| bits_post(n, b as nat, LIMBS as nat) implies #[trigger] sqrt_init_a(n, b as nat, LIMBS as nat) by { lemma_sqrt_init_a(n, b as nat, LIMBS as nat); }
+    assert forall|b: u32| #![trigger p2(b as nat)] bits_post(n, b as nat, LIMBS as nat) implies sqrt_init_a(n, b as nat, LIMBS as nat) by { lemma_sqrt_init_a(n, b as nat, LIMBS as nat); }
 //@-
         // Uses Brent & Zimmermann, Modern Computer Arithmetic, v0.5.9, Algorithm 1.13
         if self.cmp_vartime(&Self::ZERO()).is_eq() {
@@ -515,7 +518,7 @@ pub const fn sqrt(&self) -> (ret__: Self)
     let ghost lg = log2_bits(LIMBS as int) as nat;
     proof { lemma_val_bound(self.limbs@, LIMBS as nat); lemma_isqrt_exists(n); lemma_log2_bits(LIMBS as int); }
     assert forall|y: u32| #[trigger] (y >> 1) == y / 2 by { assert(y >> 1 == y / 2) by (bit_vector); }
-    assert forall|b: u32| bits_post(n, b as nat, LIMBS as nat) implies #[trigger] sqrt_init_a(n, b as nat, LIMBS as nat) && sqrt_init_b(n, b as nat, lg) by {
+    assert forall|b: u32| #![trigger p2(b as nat)] bits_post(n, b as nat, LIMBS as nat) implies sqrt_init_a(n, b as nat, LIMBS as nat) && sqrt_init_b(n, b as nat, lg) by {
         lemma_sqrt_init_a(n, b as nat, LIMBS as nat); lemma_sqrt_init_b(n, b as nat, LIMBS as nat, lg);
     }
 //@-
@@ -599,6 +602,26 @@ pub const fn wrapping_sqrt_vartime(&self) -> (ret__: Self)
 //@-
 {
         self.sqrt_vartime()
+    }
+}
+//@@ end
+//@@ fn src/uint/sqrt.rs | impl<const LIMBS: usize> Uint<LIMBS> | checked_sqrt | body | props C20 C11
+impl<const LIMBS: usize> Uint<LIMBS> {
+pub fn checked_sqrt(&self) -> (ret__: CtOption<Self>)
+{
+        let r = self.sqrt();
+        let s = r.wrapping_mul(&r);
+        CtOption::new(r, ConstantTimeEq::ct_eq(self, &s))
+    }
+}
+//@@ end
+//@@ fn src/uint/sqrt.rs | impl<const LIMBS: usize> Uint<LIMBS> | checked_sqrt_vartime | body | props C20 C11 C15
+impl<const LIMBS: usize> Uint<LIMBS> {
+pub fn checked_sqrt_vartime(&self) -> (ret__: CtOption<Self>)
+{
+        let r = self.sqrt_vartime();
+        let s = r.wrapping_mul(&r);
+        CtOption::new(r, ConstantTimeEq::ct_eq(self, &s))
     }
 }
 //@@ end
